@@ -2,7 +2,7 @@
     Property theorems only, about the per-window methods REGENERATED from the source (Gen/GenScalars.v;
     translation validated by correspondence K5).  [eql] = elementwise equality of rationals. *)
 From Coq Require Import QArith Qabs List Bool String.
-From IV Require Import QL Dist Ecdf QListFacts GenUtils GenScalars RatLS C16_compose C03_proofs C02_proofs C04_proofs C01_proofs C09_proofs RatLS_proofs Affine Affine_debiasers Driver Driver_rel ApplyLocation_units ApplyLocation_param SDM SDM_proofs IsimipStep5 IsimipStep5_proofs NP IsimipStep3 IsimipStep3_proofs.
+From IV Require Import QL Dist Ecdf QListFacts GenUtils GenScalars RatLS C16_compose C03_proofs C02_proofs C04_proofs C01_proofs C09_proofs RatLS_proofs Affine Affine_debiasers Driver Driver_rel ApplyLocation_units ApplyLocation_param SDM SDM_proofs IsimipStep5 IsimipStep5_proofs NP IsimipStep3 IsimipStep3_proofs IsimipWindow IsimipWindow_proofs GenWindows.
 Import ListNotations.
 Open Scope Q_scope.
 
@@ -184,3 +184,58 @@ Theorem C02_isimip_step7_restores_step3 : forall sig years x, List.length x = Li
   eql (step7_restore (step3_remove sig years x) (step3_trend sig years x)) x.
 Proof. exact step7_restores. Qed.
 Print Assumptions C02_isimip_step7_restores_step3.
+
+(** ISIMIP's window pipeline for an unbounded additive variable (tas, psl, rlds; Model/IsimipWindow.v = steps 3, 5, 6
+    (parametric value adjustment), 7 composed; correspondence K22 against the real ISIMIP._apply_on_window): a constant
+    added to cm_future — exactly or up to == — is added to every debiased value of the window, for any distribution
+    whose fit behaves like a location-scale family under a shift ... *)
+Theorem C02_isimip_window_trend_preserving : forall (P : Type) (D : dist P) (c : Q) (good : list Q -> Prop),
+  fit_unit_change D 1 c good -> (forall l, good l -> l <> []) ->
+  forall em im thr, em = step_function \/ em = linear_interpolation ->
+  forall so sh sf yo yh yf obs hist fut fut',
+  yf <> [] -> List.length fut = List.length yf ->
+  step3_remove so yo obs <> [] -> step3_remove sh yh hist <> [] ->
+  good (step3_remove sf yf fut) ->
+  good (step5 TAdditive em im 0 0 (step3_remove so yo obs) (step3_remove sh yh hist) (step3_remove sf yf fut)) ->
+  ARL 1 c fut fut' ->
+  ARL 1 c (isimip_window D em im thr so sh sf yo yh yf obs hist fut) (isimip_window D em im thr so sh sf yo yh yf obs hist fut').
+Proof. intros P D c good H1 H2 em im thr H3. exact (isimip_window_trend D c good H1 H2 em im thr H3). Qed.
+Print Assumptions C02_isimip_window_trend_preserving.
+
+(** ... such as the rational family used in K22; and the hypotheses hold of a concrete window *)
+Theorem C02_isimip_window_trend_preserving_ratls : forall c em im thr so sh sf yo yh yf obs hist fut fut',
+  em = step_function \/ em = linear_interpolation ->
+  yf <> [] -> List.length fut = List.length yf ->
+  step3_remove so yo obs <> [] -> step3_remove sh yh hist <> [] ->
+  ratls_good (step3_remove sf yf fut) ->
+  ratls_good (step5 TAdditive em im 0 0 (step3_remove so yo obs) (step3_remove sh yh hist) (step3_remove sf yf fut)) ->
+  ARL 1 c fut fut' ->
+  ARL 1 c (isimip_window ratls em im thr so sh sf yo yh yf obs hist fut) (isimip_window ratls em im thr so sh sf yo yh yf obs hist fut').
+Proof. exact isimip_window_trend_ratls. Qed.
+Print Assumptions C02_isimip_window_trend_preserving_ratls.
+
+Theorem C02_isimip_window_hypotheses_satisfiable :
+  ex_yo <> [] /\ List.length ex_fut = List.length ex_yo /\
+  step3_remove false ex_yo ex_obs <> [] /\ step3_remove false ex_yo ex_hist <> [] /\
+  ratls_good (step3_remove true ex_yo ex_fut) /\
+  ratls_good (step5 TAdditive linear_interpolation linear 0 0 (step3_remove false ex_yo ex_obs) (step3_remove false ex_yo ex_hist) (step3_remove true ex_yo ex_fut)) /\
+  step3_trend true ex_yo ex_fut = [(-10 # 4); (-10 # 4); (10 # 4); (10 # 4)].
+Proof. exact isimip_window_example. Qed.
+Print Assumptions C02_isimip_window_hypotheses_satisfiable.
+
+(** ... and through the running-window loop of ISIMIP.apply_location, whose windows receive the slices of values AND of
+    years (dated values): a constant added to every cm_future value is added to every debiased value, provided every
+    window that is used holds admissible samples and the significance decision of step 3 does not depend on a shift *)
+Theorem C02_isimip_trend_preserved_through_windows : forall (P : Type) (D : dist P) (c : Q) (good : list Q -> Prop),
+  fit_unit_change D 1 c good -> (forall l, good l -> l <> []) ->
+  forall em im thr, em = step_function \/ em = linear_interpolation ->
+  forall sigf : list Q -> list Z -> bool, (forall x x' y, ARL 1 c x x' -> sigf x' y = sigf x y) ->
+  forall (L S : Z) (dobs dhist dfut : list Z) (obs hist fut fut' : list (Q * Z)),
+  (forall ci, In ci (days_use S dfut) ->
+     window_ok good em im sigf (NP.take obs (days_indices_in_window L dobs (fst ci))) (NP.take hist (days_indices_in_window L dhist (fst ci)))
+               (NP.take fut (days_indices_in_window L dfut (fst ci)))) ->
+  Forall2 (PR c) fut fut' ->
+  orel (Forall2 (orel (AR 1 c))) (driver_rw Q L S dobs dhist dfut obs hist fut (W_isimip D em im thr sigf))
+                                 (driver_rw Q L S dobs dhist dfut obs hist fut' (W_isimip D em im thr sigf)).
+Proof. exact @isimip_trend_preserved_through_windows. Qed.
+Print Assumptions C02_isimip_trend_preserved_through_windows.
